@@ -1,14 +1,14 @@
 """C05 - responses are protocol-valid and length-consistent on both server interfaces.
 
-spec:   spec/ResponseEmit.tla       case -> emission state machine (SendStart, SendBody, SendEmpty, StreamRead,
+spec:   spec/ResponseEmit.tla       case -> emission state machine (RenderFails, SendStart, SendBody, SendEmpty, StreamRead,
                                     StreamSendChunk, CloseStream, Eof, SseNext, SseSend) + the property clauses
         spec/MC_ResponseEmit.tla    bounded case tables (one initial state per case), JSON export of every behaviour
         spec/ResponseEmitTrace.tla  trace judge: the same clause operators evaluated on recorded observations
-legs:   M  exhaustive TLC check of the emission design over the whole case table (+ the three wrong-design
+legs:   M  exhaustive TLC check of the emission design over the whole case table (+ the four wrong-design
            switches must each break their invariant)
         A  every behaviour TLC exported is replayed on the real falcon.App / falcon.asgi.App under the independent
-           PEP 3333 / ASGI monitors of engine.drivers, with scheduled stream / send faults; the observation is
-           compared with the behaviour
+           PEP 3333 / ASGI monitors of engine.drivers, with scheduled render / stream / send faults; the observation is
+           compared with the behaviour (P-clauses alarm, the exact event sequence is a D-clause)
         B  seeded random responses beyond the table (more codes, methods, lengths, blocks, fault points, ways of
            filling the response) are recorded and judged by TLC
 """
@@ -22,11 +22,13 @@ META = {
                   'the case table status x form x method x body sources x preset headers x interface x fault point; '
                   'every case of the table is executed on the real WSGI and ASGI apps and compared with the behaviour '
                   'TLC computed; random responses beyond the table are judged by TLC with the same clause operators.',
-    'level_note': 'Bounded: table of 2.4e4 (quick) / 2.7e5 (thorough) cases, <= 3 stream blocks, <= 2 SSE events; random '
-                  'leg <= 5 blocks, 18 status codes, 6 methods. Fault points are explored for int-status, plain-header '
-                  'cases; the D-level (exact event sequence) comparison is skipped in the domain of the two reported '
-                  'deviations. Trusted: TLC, the protocol monitors and stream doubles of the harness, json.loads, re. '
-                  'Invalid status values, unserialisable media (C04) and falsy stream objects are outside the domain. '
+    'level_note': 'Bounded: table of 2.7e4 (quick) / 3.0e5 (thorough) cases, <= 3 stream blocks, <= 2 SSE events; random '
+                  'leg <= 5 blocks, 18 status codes, 6 methods. Stream/send fault points are explored for int-status, '
+                  'plain-header cases, the render-phase fault for every int-status case (all body sources and preset '
+                  'headers). After a render-phase fault the body of the error response is a D-level detail '
+                  '(RenderPhaseFailureDropsBody) and the fate of an application stream is left open by the design. Trusted: TLC, the protocol monitors and stream doubles of the harness, json.loads, re. '
+                  'Invalid status values and falsy stream objects are outside the domain; which handler takes a render-phase '
+                  'exception is C04 (here: the default one, and one handler of the application in the random leg). '
                   'The SSE wire format is only tokenised, not judged.',
 }
 
@@ -735,13 +737,14 @@ def judge_and_report(ctx, items, workers=8):
 
 def run(ctx):
     ctx.rule = ('case = (interface, status code x form, method, lengths of text/data/media, stream kind + blocks, SSE '
-                'events, preset Content-Length/Content-Type, fault point) x harness variant (response class, cookies + '
-                'extra headers, who fills the response); non-trivial iff >= 2 body sources are set, or the status is '
+                'events, preset Content-Length/Content-Type, fault point: render / stream read j / send j) x harness variant '
+                '(response class, cookies + extra headers, who fills the response, how the render fault is raised); non-trivial iff >= 2 body sources are set, or the status is '
                 'bodiless / the method HEAD, or a fault point is scheduled; distinct by hash of (case, variant)')
     ctx.trusted_base = ['TLC 1.8 evaluation of spec/ResponseEmit.tla', 'PEP 3333 / ASGI HTTP monitors in engine/drivers.py',
                         'stream doubles and payload tokeniser in checks/c05.py', 'json.loads', 're']
     ctx.assumptions = ['status values are valid (int 100..999, http.HTTPStatus, or "<3 digits> <reason>")',
-                       'media is serialisable; stream objects are truthy; file-like streams end with b""',
+                       'stream objects are truthy; file-like streams end with b""; a render-phase fault is an Exception '
+                       'subclass raised by the media object or by render_body() of a Response subclass',
                        'the WSGI server closes the returned iterable (PEP 3333) - the driver does',
                        'an SSE emitter supersedes text/data/media/stream on ASGI (documented on Response.sse)',
                        '"framework-supplied Content-Type" = a Content-Type the application did not set itself']
